@@ -106,6 +106,19 @@ namespace vg {
             throw Diverged{ verif::cat( oracle, ": ", msg... ) };
         }
 
+        // a predicate that belongs to two properties
+        template < class... Ts >
+        void require2( bool cond, const char* oracle_a, const char* oracle_b, const Ts&... msg )
+        {
+            if ( cond )
+                return;
+            if ( enabled( oracle_a ) )
+                verif::fail( oracle_a, verif::cat( msg... ) );
+            if ( enabled( oracle_b ) )
+                verif::fail( oracle_b, verif::cat( msg... ) );
+            throw Diverged{ verif::cat( oracle_a, ": ", msg... ) };
+        }
+
         template < class... Ts >
         void require_sig( bool cond, const char* oracle, const std::string& sig, const Ts&... msg )
         {
@@ -1137,7 +1150,7 @@ namespace vg {
                     ++expected_cccd_calls;
             }
             if ( failed )
-                require( is_error( out, 0x18 ), "c07.execute", "Execute Write with a queued write that can not be applied must be answered with an error, got ", verif::hex( out ) );
+                require2( is_error( out, 0x18 ), "c07.execute", "c06.execute-invalid-write", "Execute Write with a queued write that can not be applied (invalid offset / length, not permitted) must be answered with an error, got ", verif::hex( out ) );
             else
                 require( out.size() == 1 && out[ 0 ] == 0x19, "c07.execute", "Execute Write of ", queue.size(), " applicable queued writes must succeed, got ", verif::hex( out ) );
             queue.clear();
